@@ -194,19 +194,22 @@ class Heap:
 _WF_CACHE: dict = {}
 
 
-def wf_clauses(h: Heap, T, tag: str | None = None) -> dict:
+def wf_clauses(h: Heap, T, tag: str | None = None, pending=None) -> dict:
     """The representation invariant, clause by clause (names as in DESIGN §4).
     Cached per (heap symbols, T): the same invariant over the same state is the *same*
     formula, so re-establishing an unchanged wf at a call site is propositional."""
-    key = (tuple(h.syms[c].name() for c in sorted(COMPONENTS)), T.sexpr())
+    key = (tuple(h.syms[c].name() for c in sorted(COMPONENTS)), T.sexpr(), None if pending is None else pending.sexpr())
     if key in _WF_CACHE:
         return _WF_CACHE[key]
-    r = _wf_clauses(h, T, tag)
+    r = _wf_clauses(h, T, tag, pending)
     _WF_CACHE[key] = r
     return r
 
 
-def _wf_clauses(h: Heap, T, tag: str | None = None) -> dict:
+def _wf_clauses(h: Heap, T, tag: str | None = None, pending=None) -> dict:
+    """`pending`: a node that is already registered (member) but not yet inserted into its
+    parent's child list (state between Node.__init__ and the insertion in add_child): it is
+    exempt from the 'appears in its parent's list' part of S2."""
     t = tag or f"wf{fresh_id()}"
     n, p, q = Const(f"n!{t}", Ref), Const(f"p!{t}", Ref), Const(f"q!{t}", Ref)
     i, j = Const(f"i!{t}", I), Const(f"j!{t}", I)
@@ -220,8 +223,9 @@ def _wf_clauses(h: Heap, T, tag: str | None = None) -> dict:
     c["S1"] = And(T != NONE, root != NONE, h._parent(root) == NONE, h._tree(root) == T, Not(mem(root)), h.rank(root) == 0, h.alloc(T), h.alloc(root),
                   nbi != DNONE, nbd != DNONE, h.dalloc(nbi), h.dalloc(nbd), nbi != nbd, Or(cls_of(T) == CLS["Tree"], cls_of(T) == CLS["TypedTree"], cls_of(T) == CLS["FileSystemTree"]),
                   cls_of(root) == If(cls_of(T) == CLS["TypedTree"], CLS["_SystemRootTypedNode"], CLS["_SystemRootNode"]))
-    c["S2"] = ForAll([n], Implies(mem(n), And(inP(h._parent(n)), h.alloc(n), 0 <= h.pos(n), h.pos(n) < h.clen(h._parent(n)), h.child(h._parent(n), h.pos(n)) == n,
-                                               cls_of(n) == If(cls_of(T) == CLS["TypedTree"], CLS["TypedNode"], CLS["Node"]))), patterns=[h._parent(n), h._tree(n)])
+    attached = (lambda x: BoolVal(True)) if pending is None else (lambda x: x != pending)
+    c["S2"] = ForAll([n], Implies(mem(n), And(inP(h._parent(n)), h.alloc(n), Implies(attached(n), And(0 <= h.pos(n), h.pos(n) < h.clen(h._parent(n)), h.child(h._parent(n), h.pos(n)) == n)),
+                                               cls_of(n) == If(cls_of(T) == CLS["TypedTree"], CLS["TypedNode"], CLS["Node"]))), patterns=[h._parent(n), h._tree(n), h.pos(n)])
     c["S3"] = ForAll([p, i], Implies(And(inP(p), 0 <= i, i < h.clen(p)), And(mem(h.child(p, i)), h._parent(h.child(p, i)) == p, h.pos(h.child(p, i)) == i)), patterns=[h.litem(ch(p), i)])
     c["S4"] = ForAll([n], Implies(mem(n), And(h.rank(n) == h.rank(h._parent(n)) + 1, h.rank(n) >= 1)), patterns=[h.rank(n)])
     c["S5"] = And(
@@ -234,25 +238,23 @@ def _wf_clauses(h: Heap, T, tag: str | None = None) -> dict:
     # I1: id index exact + injective  (mem is *defined* through the index, so only one direction + key facts)
     c["I1"] = And(
         ForAll([k], Implies(h.ddom(nbi, k), And(h.dref(nbi, k) != NONE, h._tree(h.dref(nbi, k)) == T, h._node_id(h.dref(nbi, k)) == k, v_truthy(k))), patterns=[h.dref(nbi, k), h.ddom(nbi, k)]),
-        h.dcard(nbi) >= 0,
     )
     # I2: clone lists exact (cpos = ghost position inside the clone list)
     c["I2"] = And(
         ForAll([d], Implies(h.ddom(nbd, d), And(h.dlst(nbd, d) != LNONE, h.lalloc(h.dlst(nbd, d)), h.llen(h.dlst(nbd, d)) > 0)), patterns=[h.dlst(nbd, d)]),
         ForAll([d, i], Implies(And(h.ddom(nbd, d), 0 <= i, i < h.llen(h.dlst(nbd, d))),
                                And(mem(h.litem(h.dlst(nbd, d), i)), h._data_id(h.litem(h.dlst(nbd, d), i)) == d, h.cpos(h.litem(h.dlst(nbd, d), i)) == i)), patterns=[h.litem(h.dlst(nbd, d), i)]),
-        ForAll([n], Implies(mem(n), And(h.ddom(nbd, h._data_id(n)), 0 <= h.cpos(n), h.cpos(n) < h.llen(h.dlst(nbd, h._data_id(n))), h.litem(h.dlst(nbd, h._data_id(n)), h.cpos(n)) == n)), patterns=[h._data_id(n)]),
+        ForAll([n], Implies(mem(n), And(h.ddom(nbd, h._data_id(n)), 0 <= h.cpos(n), h.cpos(n) < h.llen(h.dlst(nbd, h._data_id(n))), h.litem(h.dlst(nbd, h._data_id(n)), h.cpos(n)) == n)), patterns=[h._data_id(n), h.cpos(n)]),
         ForAll([d, e], Implies(And(h.ddom(nbd, d), h.ddom(nbd, e), d != e), h.dlst(nbd, d) != h.dlst(nbd, e)), patterns=[z3.MultiPattern(h.dlst(nbd, d), h.dlst(nbd, e))]),
-        h.dcard(nbd) >= 0,
     )
     c["U"] = ForAll([p, i, j], Implies(And(inP(p), 0 <= i, i < j, j < h.clen(p)), h._data_id(h.child(p, i)) != h._data_id(h.child(p, j))), patterns=[z3.MultiPattern(h.litem(ch(p), i), h.litem(ch(p), j))])
     # typed trees: every member has a str kind different from ANY_KIND
-    c["K"] = ForAll([n], Implies(And(mem(n), cls_of(T) == CLS["TypedTree"]), And(h._kind(n) != ANY_KIND, h._kind(n) != VNONE, v_is_str(h._kind(n)))), patterns=[h._kind(n)])
+    c["K"] = ForAll([n], Implies(And(mem(n), cls_of(T) == CLS["TypedTree"], attached(n)), And(h._kind(n) != ANY_KIND, h._kind(n) != VNONE, v_is_str(h._kind(n)))), patterns=[h._kind(n)])
     return c
 
 
-def wf(h: Heap, T, tag=None, only=None):
-    cs = wf_clauses(h, T, tag)
+def wf(h: Heap, T, tag=None, only=None, pending=None):
+    cs = wf_clauses(h, T, tag, pending)
     return And(*[v for k, v in cs.items() if only is None or k in only])
 
 
@@ -281,7 +283,7 @@ def ctrl_axioms():
     out = [z3.Distinct(*[clsobj(n) for n in CTRL])]
     for n in CTRL:
         c = clsobj(n)
-        out += [Not(v_is_int(c)), Not(v_is_str(c)), c != VNONE, v_truthy(c)]
+        out += [Not(v_is_int(c)), Not(v_is_str(c)), c != VNONE, v_truthy(c), Not(Function("val_is_other_class", Val, B)(c))]
         out.append(ForAll([v], Implies(exc_pred(n)(v), And(Not(v_is_int(v)), Not(v_is_str(v)), v != VNONE, v_truthy(v), *[v != clsobj(m) for m in CTRL], *[Not(exc_pred(m)(v)) for m in CTRL if m != n])), patterns=[exc_pred(n)(v)]))
         for m in CTRL:
             out.append(Not(exc_pred(m)(c)))
